@@ -274,9 +274,11 @@ def oracle(ctx, hist, w):
     for r in w.releases:
         if r["tag"] > r["dc"]:
             seen["stale_discarded"] += 1
-            pre = sorted(r["pre"]["pool"] + r["pre"]["queue"])
-            post = sorted(r["post"]["pool"] + r["post"]["queue"])
-            if single and pre != post:
+            # the site's plans may leave the pool through the day's decision, but none may have grown
+            # by the stale record and no plan may have been created from it
+            pre = r["pre"]["pool"] + r["pre"]["queue"]
+            post = r["post"]["pool"] + r["post"]["queue"]
+            if single and (any(x not in pre for x in post)):
                 V("C09:stale:release-check", "a screening made before the site's latest tagging survey was processed",
                   {"day": r["day"], "site": r["site"], "screening_day": r["dc"], "latest_tagging_survey": r["tag"]})
 
